@@ -1,9 +1,9 @@
 package harness
 
 import (
-	"math"
 	"bytes"
 	"fmt"
+	"math"
 	"math/rand"
 	"reflect"
 	"regexp"
